@@ -1187,6 +1187,23 @@ Section Inv.
   Lemma logged_before_sent evs m : In m (sent (run_evs evs)) -> durable_at_send (run_evs evs) m.
   Proof. intro H. apply (inv_dur (ib_inv (InvB_run evs))); auto. Qed.
 
+  Definition msg_round (m : sentmsg) : Z :=
+    match m with SVote r _ _ _ => r | SProposal r _ _ _ => r end.
+
+  (* rounds never go back: while the engine runs, every message it has ever sent
+     is of a round <= its current round (so the next one it sends is not of an
+     earlier round than any previous one) *)
+  Lemma sent_rounds_le evs m :
+    status_ (run_evs evs) = Running -> In m (sent (run_evs evs)) -> msg_round m <= round (run_evs evs).
+  Proof.
+    intros R Hm. pose proof (InvB_run evs) as [HI HC]. specialize (HC R).
+    pose proof (inv_dur HI _ Hm) as D.
+    assert (D' : In (rec_of m) (wal_all (wal_r (run_evs evs)))) by (unfold wal_all; apply in_or_app; left; auto).
+    destruct m as [r t d i|r b p i]; cbn in *.
+    - pose proof (ctl_votes HC _ D' eq_refl) as P. unfold pos_le, pos in P; cbn in P. lia.
+    - pose proof (ctl_props HC _ _ _ D') as P. unfold pos_le, pos in P; cbn in P. lia.
+  Qed.
+
   (* while the engine runs, its position is at or after every own message in the WAL *)
   Lemma position_covers_wal evs v :
     status_ (run_evs evs) = Running -> In (RVote v) (wal_all (wal_r (run_evs evs))) -> v_from v = own ->
